@@ -337,6 +337,34 @@ def loadTokens (blocks : List (Nat × Nat)) : List (Nat × Nat) → Nat → List
     if r.2.2.isEmpty ∧ r.2.1 < offset + length then none
     else loadTokens blocks toks r.2.1 r.2.2 r.1
 
+/-- The same loop keeping the segments of every token apart, labelled with the token's file name
+(several files share the blocks of one stream; `pos`/`segIdx` carry over from token to token). -/
+def loadTokensN {ι : Type} (blocks : List (Nat × Nat)) :
+    List (Nat × Nat × ι) → Nat → List (Nat × Nat) → List (ι × List Seg) → Option (List (ι × List Seg))
+  | [], _, _, acc => some acc
+  | (offset, length, name) :: toks, pos, remaining, acc =>
+    let (pos, remaining) := if offset < pos then (0, blocks) else (pos, remaining)
+    let r := walkBlocks offset length remaining pos []
+    if r.2.2.isEmpty ∧ r.2.1 < offset + length then none
+    else loadTokensN blocks toks r.2.1 r.2.2 (acc ++ [(name, r.1)])
+
+/-- appendSegment on the file node with that path (created on first use) -/
+def addToFile {ι : Type} [BEq ι] (files : List (ι × List Seg)) (path : ι) (segs : List Seg) : List (ι × List Seg) :=
+  if files.any (fun f => f.1 == path) then
+    files.map (fun f => if f.1 == path then (f.1, f.2 ++ segs) else f)
+  else files ++ [(path, segs)]
+
+/-- loadManifest over several streams: each stream has its own block list (index into the case's
+blocks, size from the locator) and file tokens whose names are already joined with the stream's
+directory. `none` = the manifest is rejected. -/
+def loadManifestN {ι : Type} [BEq ι] :
+    List (List (Nat × Nat) × List (Nat × Nat × ι)) → List (ι × List Seg) → Option (List (ι × List Seg))
+  | [], files => some files
+  | (blocks, toks) :: rest, files =>
+    match loadTokensN blocks toks 0 blocks [] with
+    | none => none
+    | some perTok => loadManifestN rest (perTok.foldl (fun fs t => addToFile fs t.1 t.2) files)
+
 /-- filenodePtr. `stale` = `repacked` differs from the filenode's (set by Seek). -/
 structure Ptr where
   off : Nat := 0
